@@ -113,6 +113,70 @@ func init() {
 		BudgetQuick: 240 * time.Second, BudgetThorough: 1200 * time.Second,
 		Prepare: PrepareUniverse,
 		Run: func(w *W) {
+			// the configuration refers to the very packages the generated code imports on its own account (fmt, os, errors,
+			// context, strconv, the runtime's container package): still one import per path, distinct local names, file type-checks
+			for ui, use := range []func(c *Cfg){
+				func(c *Cfg) {
+					c.Meta.Functions = append(c.Meta.Functions, KV{"getenv", `"os".Getenv`})
+					c.Params = append(c.Params, Param{"e", `%getenv("HOME")%`})
+				},
+				func(c *Cfg) {
+					c.Meta.Functions = append(c.Meta.Functions, KV{"itoa", "strconv.Itoa"}, KV{"sprint", `"fmt".Sprint`})
+					c.Params = append(c.Params, Param{"e", `%itoa(5)%-%sprint("x", 1)%`})
+				},
+				func(c *Cfg) {
+					c.Services = append(c.Services, Service{Name: "errSvc", Constructor: P(`"errors".New`), Args: []any{"boom"}})
+				},
+				func(c *Cfg) {
+					c.Services = append(c.Services, Service{Name: "ctxSvc", Constructor: P("context.Background"), Type: P("context.Context"), Getter: P("GetCtx")})
+				},
+				func(c *Cfg) {
+					c.Services = append(c.Services, Service{Name: "fmtSvc", Value: P("os.Args"), Fields: nil}, Service{Name: "strSvc", Constructor: P("fmt.Sprintf"), Args: []any{"%%v", "!value os.Args"}})
+				},
+				func(c *Cfg) {
+					c.Services = append(c.Services, Service{Name: "inner", Constructor: P(`"` + HelpersPath + `/container".New`), Type: P(`*"` + HelpersPath + `/container".Container`), Getter: P("GetInner")})
+				},
+			} {
+				for stub := 0; stub < 2; stub++ {
+					ui, use, stub := ui, use, stub
+					w.Case(fmt.Sprintf("template-packages-named-by-the-user/%d/stub=%d", ui, stub), func(c *C) {
+						cfg := &Cfg{Meta: stdMeta(), Params: []Param{{"p", `%env("X", "d")%-%envInt("Y", 1)%`}, {"t", "%todo()%"}}, Services: []Service{{Name: "s", Constructor: P("pk.New"), Args: []any{"%p%"}}, {Name: "todoSvc", Todo: P(true)}}}
+						use(cfg)
+						files := []File{{"c.yaml", cfg.YAML()}}
+						fm := FilesMap(files)
+						var flags []string
+						if stub == 1 {
+							flags = []string{"--stub"}
+						}
+						br := w.Build(files, flags...)
+						c.Distinct("all", c.ID)
+						c.Distinct("nontrivial", c.ID)
+						if !br.OK() {
+							c.Violation("valid-rejected", "rejected:\n"+strings.Join(ErrorLines(br.Out), "\n")+br.Panic, fm, nil)
+							return
+						}
+						gi := Analyze(w.TC(stub == 1), br.Output, nil)
+						paths, locals := map[string]int{}, map[string]int{}
+						for _, im := range gi.Imports {
+							paths[im[1]]++
+							locals[im[0]]++
+						}
+						for p, n := range paths {
+							if n > 1 {
+								c.Violation("path-imported-twice", fmt.Sprintf("%s imported %d times (%s)", p, n, c.ID), fm, nil)
+							}
+						}
+						for l, n := range locals {
+							if n > 1 && l != "" {
+								c.Violation("local-name-shared", fmt.Sprintf("local name %s used for %d imports (%s)", l, n, c.ID), fm, nil)
+							}
+						}
+						if len(gi.Errs) > 0 && stub == 0 {
+							c.Violation("typecheck:"+compilerKey(gi.Errs[0]), "generated file does not type-check ("+c.ID+"):\n"+strings.Join(gi.Errs, "\n"), fm, nil)
+						}
+					})
+				}
+			}
 			k := 2
 			if !w.Env.Quick() {
 				k = 3
